@@ -61,6 +61,7 @@ const (
 type behaviour struct {
 	status      int // 0 = WriteHeader is not called
 	body        bool
+	bodyKind    int // when body: 0 one non-empty Write, 1 a zero-length Write, 2 a zero-length Write followed by a non-empty one, 3 two non-empty Writes
 	panicKind   int
 	panicBefore bool // panic before writing anything
 	pstr        string
@@ -69,6 +70,9 @@ type behaviour struct {
 
 func (b behaviour) String() string {
 	s := fmt.Sprintf("status=%d body=%v", b.status, b.body)
+	if b.body {
+		s += []string{"", "(zero-length write)", "(zero-length, then data)", "(two writes)"}[b.bodyKind%4]
+	}
 	if b.panicKind != pNone {
 		when := "after"
 		if b.panicBefore {
@@ -161,11 +165,26 @@ func handlerFor() httpd.HandlerFunc {
 			s.W.WriteHeader(b.status)
 		}
 		if b.body {
-			s.W.Write([]byte("body"))
+			writeBody(s, b)
 		}
 		if b.panicKind != pNone {
 			doPanic(b)
 		}
+	}
+}
+
+func writeBody(s *httpd.Store, b behaviour) {
+	switch b.bodyKind % 4 {
+	case 0:
+		s.W.Write([]byte("body"))
+	case 1:
+		s.W.Write([]byte{}) // commits the header like any other Write
+	case 2:
+		s.W.Write(nil)
+		s.W.Write([]byte("body"))
+	default:
+		s.W.Write([]byte("bo"))
+		s.W.Write([]byte("dy"))
 	}
 }
 
@@ -302,6 +321,9 @@ func genBatch(t *rapid.T) *batch {
 			}
 		}
 		bh.body = rapid.Bool().Draw(t, "body")
+		if bh.body {
+			bh.bodyKind = rapid.IntRange(0, 3).Draw(t, "bodyKind")
+		}
 		if rapid.IntRange(0, 2).Draw(t, "panics") == 0 {
 			bh.panicKind = rapid.IntRange(1, numPanicKinds-1).Draw(t, "panicKind")
 			bh.panicBefore = rapid.Bool().Draw(t, "panicBefore")
@@ -555,7 +577,7 @@ func TestRealServer(t *testing.T) {
 	mux.HandleRelay(lg.Relay)
 	behaviours := map[string]behaviour{
 		"0": {}, "1": {status: 201, body: true}, "2": {panicKind: pString, panicBefore: true, pstr: "expected"}, "3": {status: 202, panicKind: pError, pstr: "late"},
-		"4": {body: true, panicKind: pInt, pint: 7}, "5": {panicKind: pNil, panicBefore: true}, "6": {status: 503}, "7": {panicKind: pTypedNil},
+		"4": {body: true, panicKind: pInt, pint: 7}, "8": {body: true, bodyKind: 1, panicKind: pString, pstr: "after an empty write"}, "9": {body: true, bodyKind: 1}, "5": {panicKind: pNil, panicBefore: true}, "6": {status: 503}, "7": {panicKind: pTypedNil},
 	}
 	mux.Handle("/h/:id", httpd.MethodAll, func(s *httpd.Store) {
 		b := behaviours[s.RouteParam("id")]
@@ -566,7 +588,7 @@ func TestRealServer(t *testing.T) {
 			s.W.WriteHeader(b.status)
 		}
 		if b.body {
-			s.W.Write([]byte("body"))
+			writeBody(s, b)
 		}
 		if b.panicKind != pNone {
 			doPanic(b)
